@@ -572,6 +572,9 @@ class Norm:
                 parts.append(ast.Compare(left=left, ops=[op], comparators=[c]))
                 left = c
             return self.b(ast.BoolOp(op=ast.And(), values=parts), neg, integer)
+        if isinstance(e, ast.Call) and ast.unparse(e.func) in ("np.count_nonzero", "len") and len(e.args) == 1 and not e.keywords:
+            # truthiness of a count: it holds iff the count is not 0
+            return self.b(ast.Compare(left=e, ops=[ast.NotEq()], comparators=[ast.Constant(value=0)]), neg, integer)
         if isinstance(e, ast.Call):
             nm = ast.unparse(e.func)
             # all / any over a boolean array, function or method form:  any(P) == not all(not P)
